@@ -65,6 +65,16 @@ def run(ctx):
         c["pts"] = dense
         cases.append(c)
     _tempo.judge(ctx, cases, "C12", "seeded maps with tempo changes days into the chart", queries=_queries)
+    # long tempo maps (a code path may depend on the NUMBER of tempo events)
+    cases = []
+    for k in range(ctx.pick(12, 300)):
+        res, tempo, pts = tm.seeded_map(r, min_segments=r.choice([9, 17, 33, 65, 130]), max_segments=r.choice([140, 400]))
+        if len(pts) > 120:
+            pts = sorted(set(r.sample(pts, 100) + [pts[0], pts[-1], tempo[-1][0], tempo[-1][0] + 1]))
+        c = tm.chart_case_from_map(r, f"C12-long{k}", res, tempo, pts)
+        c["pts"] = pts
+        cases.append(c)
+    _tempo.judge(ctx, cases, "C12", "seeded long tempo maps", queries=_queries)
     ctx.assumptions += [
         "strictness is required only when n*res <= 3*10^10 for every tempo of the chart (a tick lasts >= 2 microseconds)",
         "observations are sorted by tick by the harness; TLC checks the sort and decides all pairs through adjacent pairs",
